@@ -6,6 +6,7 @@ import sys
 import time
 
 VERIF = os.path.dirname(os.path.dirname(os.path.abspath(__file__)))
+EVIDENCE_DIR = os.environ.get("VERIF_EVIDENCE_DIR") or os.path.join(VERIF, "evidence")
 
 
 class Ob:
@@ -182,8 +183,8 @@ class Result:
             "violations": len(viol),
         }
         ev["coverage"].update(self.extra)
-        os.makedirs(os.path.join(VERIF, "evidence"), exist_ok=True)
-        with open(os.path.join(VERIF, "evidence", "%s.json" % self.prop), "w") as f:
+        os.makedirs(EVIDENCE_DIR, exist_ok=True)
+        with open(os.path.join(EVIDENCE_DIR, "%s.json" % self.prop), "w") as f:
             json.dump(ev, f, indent=1, default=str)
         print("%s %s: %d obligations, %d discharged, %d known, %d violated, %d uninterpretable (%.2fs)" % (
             self.prop, self.tier, n, discharged, len(knownhits), len(viol), len(unint), time.time() - self.t0))
@@ -195,7 +196,7 @@ class Result:
             sites = sorted({x.site for x, kk in knownhits if kk is k})
             print("KNOWN-FINDING: property=%s %s [%s; %d construct(s): %s]" % (self.prop, k.get("what", ""), o.rule, len(sites), "; ".join(sites)[:300]))
         if viol:
-            rdir = os.path.join(VERIF, "evidence", "replay")
+            rdir = os.path.join(EVIDENCE_DIR, "replay")
             os.makedirs(rdir, exist_ok=True)
             path = os.path.join(rdir, "%s.json" % self.prop)
             with open(path, "w") as f:
